@@ -761,6 +761,8 @@ Theorem scripts_available_model t : consistent_owners (t_inputs t) = true ->
 Proof.
   intros HC. unfold scripts_available. rewrite !andb_true_iff. repeat split;
     try (apply nodupb_true, set_of_nodup).
+  2: { apply forallb_forall. intros d Hd. apply N.eqb_eq, countN_nodup; [apply set_of_nodup |].
+       unfold model_emitted, ws_datums. cbn [e_datums]. rewrite set_of_in, in_app_iff. right. exact Hd. }
   apply forallb_forall. intros i Hi. unfold script_items in Hi. rewrite !in_app_iff in Hi.
   destruct Hi as [Hi | [Hi | [Hi | [Hi | [Hi | Hi]]]]].
   - apply in_flat_map in Hi. destruct Hi as [[o w] [Ho Hi]]. cbn [snd] in Hi. unfold mk_items in Hi.
